@@ -71,10 +71,12 @@ def parse_case(line):
 
 class C16(PropertyCheck):
     pid = "C16"
+    source_tables = ["ARC_LABELS", "ARC_HEADER_PAD", "BIN_HEADER"]   # tables / constants regenerated from /repo's source (gen/srctables.py)
     release_too = True
     rule = ("streams: images from a Python arc writer on top of a Python bin-archive writer with layout knobs (padded 0x60 header or "
             "not, record order != body order, unaligned / empty / zero-filled bodies with gaps, bodies before and AFTER the tables, a body ending "
-            "exactly on the last byte of the data region, shared and overlapping ranges, Count before or after Info, "
+            "exactly on the last byte of the data region, an EMPTY file as the last body with nothing after it (start address = size of the data region), "
+            "shared and overlapping ranges, Count before or after Info, "
             "extra labels, permuted pointer and label tables, junk and duplicated strings in the text section, non-ASCII lossless names), "
             "0-12 files quick / up to 100 thorough; each error variant (no Count, no Info, record without a string, range leaving the data "
             "region, planted offsets incl. 0xFFFFFFF0 = finding F9, Count larger/smaller than the table); ArcTest.arc. The result is compared "
@@ -115,6 +117,19 @@ class C16(PropertyCheck):
                       count_first=bool(mask & 16), extra_labels=bool(mask & 32), tail=0.5 if mask & 64 else 0.0, end_exact=bool(mask & 128))
             image, exp = txtfile.arc_write(base, rng, **kw)
             cases.append(Case(render(image, exp, base), "knob-grid"))
+        # an EMPTY file packed as the very last body with nothing after it: record size 0 and offset + padding = size of the data
+        # region (the start address of the range equals the end of the data; extraction must be Ok with an empty entry) - alone in
+        # the archive, after other bodies, with and without the padded header, record first or last in the table
+        for padded in (True, False):
+            for count_first in (True, False):
+                for fs in ([(b"empty", b"")],
+                           [(b"empty", b""), (b"a.bin", b"\x01\x02\x03")],
+                           [(b"a.bin", b"\x01\x02\x03\x04"), (b"empty", b"")],
+                           [(b"e1", b""), (b"b", bytes(5)), (b"e2", b"")]):
+                    for rep in range(2 if quick else 6):
+                        image, exp = txtfile.arc_write(fs, rng, padded=padded, permute_bodies=False, unaligned=bool(rep & 1), count_first=count_first,
+                                                       extra_labels=bool(rep & 2), tail=1.0, end_exact=True, empty_last=True)
+                        cases.append(Case(render(image, exp, fs), "empty-last"))
         # error variants
         n_err = 600 if quick else 8000
         for _ in range(n_err):
